@@ -19,6 +19,14 @@
      fc_loop / for_children    forChildren: per-child dispatch with replay from the
                                stanza's start token, error collection, and the
                                "only start and end were read" wildcard rule
+     run_reads / handle_gen N  a handler's operations: calls to Token() and, at any
+                               point between them, "dispatch another stanza on the
+                               same mux" (re-entrancy; N gives the other dispatches)
+     handle_from / handle_in   several stanzas on one mux, nested to any depth; the
+                               mux (registry, name space) is all they share - the
+                               replay buffer, iterator and readers are values of
+                               each call (gen/Mux.v: nothing but New writes a field
+                               of ServeMux, forChildren allocates its buffer itself)
 
    A token reader is a residual token list plus a terminal condition [term]:
    which error ends it (t_err = false: io.EOF, true: some other error) and how
@@ -295,13 +303,13 @@ Definition new_presence (sn : name) (attrs : list attr) : option hdr :=
 
 (* ---- observables ---- *)
 
-Record hbeh := mkbeh { hb_reads : nat; hb_fail : bool }.
-
-Inductive event :=
-| EvTop (h : hid) (n : name) (got : list tok)
-| EvIq (h : hid) (typ : bytes) (payload : option name) (got : list tok)
-| EvMsg (h : hid) (typ : bytes) (got : list tok)
-| EvPres (h : hid) (typ : bytes) (got : list tok).
+(* a handler's behaviour: hb_reads calls to Token(), an error or not - and,
+   optionally, re-entrancy: hb_nest = Some (at, j): after min at hb_reads of its
+   reads the handler hands stanza j of the case's list of further stanzas to the
+   SAME mux (as a handler that unwraps a forwarded stanza does), lets that
+   dispatch run to its end, ignores what it returns, and goes on reading *)
+Record hbeh := mkbehn { hb_reads : nat; hb_fail : bool; hb_nest : option (nat * nat) }.
+Definition mkbeh (reads : nat) (fail : bool) : hbeh := mkbehn reads fail None.
 
 (* an IQ written by the mux itself: <iq xmlns=space type= to= from= id= xml:lang=>
    <error type=etype><cond xmlns=urn:ietf:params:xml:ns:xmpp-stanzas/></error></iq> *)
@@ -311,7 +319,26 @@ Record reply := mkreply {
 
 Inductive ret := RetOk | RetErr | RetEOF | RetPanic | RetOutOfFuel.
 
+(* EvNested j evs reps r: the handler of the event before it dispatched stanza j
+   on the same mux; that dispatch invoked evs, wrote reps (to its own encoder)
+   and returned r *)
+Inductive event :=
+| EvTop (h : hid) (n : name) (got : list tok)
+| EvIq (h : hid) (typ : bytes) (payload : option name) (got : list tok)
+| EvMsg (h : hid) (typ : bytes) (got : list tok)
+| EvPres (h : hid) (typ : bytes) (got : list tok)
+| EvNested (j : nat) (evs : list event) (reps : list reply) (r : ret).
+
 Record outcome := mkout { o_events : list event; o_replies : list reply; o_ret : ret }.
+
+(* the other dispatches a handler may start: stanza j's dispatch on the same mux
+   and its outcome; None: there is no such stanza (the request is ignored) *)
+Definition nestf := nat -> option outcome.
+Definition no_nest : nestf := fun _ => None.
+
+(* events of the stanza itself, as opposed to those of dispatches nested in it *)
+Definition own_ev (e : event) : bool := match e with EvNested _ _ _ _ => false | _ => true end.
+Definition own_count (evs : list event) : nat := length (filter own_ev evs).
 
 Definition out_nothing : outcome := mkout [] [] RetOk.
 Definition out_err : outcome := mkout [] [] RetErr.
@@ -328,14 +355,29 @@ Definition ret_of (b : hbeh) : ret := if hb_fail b then RetErr else RetOk.
 
 Definition cons_event (e : event) (o : outcome) : outcome := mkout (e :: o_events o) (o_replies o) (o_ret o).
 
+(* what an invoked handler does with the reader it is given: the tokens it
+   obtains, the reader afterwards, and the dispatch it nested (if any).  The
+   nested dispatch has its own reader, script and encoder: all it shares with this
+   one is the mux. *)
+Definition run_reads {St : Type} (N : nestf) (rdr : St -> rd St) (b : hbeh) (s : St)
+  : list tok * St * list event :=
+  match match hb_nest b with Some (a, j) => match N j with Some o => Some (a, j, o) | None => None end | None => None end with
+  | None => let '(got, s') := take_n rdr (hb_reads b) s in (got, s', [])
+  | Some (a, j, o) =>
+      let k1 := Nat.min a (hb_reads b) in
+      let '(g1, s1) := take_n rdr k1 s in
+      let '(g2, s2) := take_n rdr (hb_reads b - k1) s1 in
+      (g1 ++ g2, s2, [EvNested j (o_events o) (o_replies o) (o_ret o)])
+  end.
+
 (* ---- top-level handlers ---- *)
 
-Definition run_top (h : hid) (sn : name) (toks : list tok) (tm : term) (script : list hbeh) : outcome :=
+Definition run_top (N : nestf) (h : hid) (sn : name) (toks : list tok) (tm : term) (script : list hbeh) : outcome :=
   match h with
   | 0 => out_panic
   | _ => let '(b, _) := next_beh script in
-         let '(got, _) := take_n (u_token tm) (hb_reads b) toks in
-         mkout [EvTop h sn got] [] (ret_of b)
+         let '(got, _, ne) := run_reads N (u_token tm) b toks in
+         mkout (EvTop h sn got :: ne) [] (ret_of b)
   end.
 
 (* ---- IQs ---- *)
@@ -351,18 +393,18 @@ Definition iq_reader (tm : term) : option nat * list tok -> rd (option nat * lis
 
 (* the chosen IQ handler (or the fallback) is invoked; payload = None for an
    empty result IQ *)
-Definition invoke_iq (r : registry) (sn : name) (h : hdr) (payload : option name) (tm : term)
+Definition invoke_iq (N : nestf) (r : registry) (sn : name) (h : hdr) (payload : option name) (tm : term)
   (st : option nat * list tok) (script : list hbeh) : outcome :=
   match lookup_iq r (h_type h) (match payload with Some n => n | None => ([], []) end) with
   | None => iq_fallback sn h
   | Some 0 => out_panic
   | Some hd =>
       let '(b, _) := next_beh script in
-      let '(got, _) := take_n (iq_reader tm) (hb_reads b) st in
-      mkout [EvIq hd (h_type h) payload got] [] (ret_of b)
+      let '(got, _, ne) := run_reads N (iq_reader tm) b st in
+      mkout (EvIq hd (h_type h) payload got :: ne) [] (ret_of b)
   end.
 
-Definition iq_router (r : registry) (sn : name) (attrs : list attr) (toks : list tok) (tm : term)
+Definition iq_router (N : nestf) (r : registry) (sn : name) (attrs : list attr) (toks : list tok) (tm : term)
   (script : list hbeh) : outcome :=
   match new_iq sn attrs with
   | None => out_err
@@ -370,7 +412,7 @@ Definition iq_router (r : registry) (sn : name) (attrs : list attr) (toks : list
       match trim_first (iq_reader tm) (S (length toks)) (Some 0, toks) with
       | None => out_fuel
       | Some (RTok _ (Some true) _) => out_err      (* err != nil && err != io.EOF *)
-      | Some (RTok (TStart n) None st) => invoke_iq r sn h (Some n) tm st script
+      | Some (RTok (TStart n) None st) => invoke_iq N r sn h (Some n) tm st script
       | Some (RTok _ None _) =>
           (* "invalid payload": no pattern can match; answered by the fallback,
              and the router returns an error *)
@@ -380,13 +422,13 @@ Definition iq_router (r : registry) (sn : name) (attrs : list attr) (toks : list
              error only *)
           if bytes_eqb (h_type h) iqtype_result then
             match t with
-            | TStart n => invoke_iq r sn h (Some n) tm st script
+            | TStart n => invoke_iq N r sn h (Some n) tm st script
             | _ => let o := iq_fallback sn h in mkout [] (o_replies o) RetErr
             end
           else let o := iq_fallback sn h in mkout [] (o_replies o) RetErr
       | Some (RErr _) => out_err
       | Some (REof st) =>
-          if bytes_eqb (h_type h) iqtype_result then invoke_iq r sn h None tm st script
+          if bytes_eqb (h_type h) iqtype_result then invoke_iq N r sn h None tm st script
           else
             (* an IQ that may not be empty: answered by the fallback, and the
                router returns an error that is not the bare io.EOF *)
@@ -494,7 +536,7 @@ Definition l_cons (e : event) (l : lres) : lres :=
   | LDone evs b ie f => LDone (e :: evs) b ie f
   end.
 
-Fixpoint fc_loop (tm : term) (r : registry) (k : skind) (typ : bytes) (fuel : nat) (it : iter)
+Fixpoint fc_loop (N : nestf) (tm : term) (r : registry) (k : skind) (typ : bytes) (fuel : nat) (it : iter)
   (script : list hbeh) (failed : bool) : lres :=
   match fuel with
   | 0 => LFuel
@@ -502,26 +544,27 @@ Fixpoint fc_loop (tm : term) (r : registry) (k : skind) (typ : bytes) (fuel : na
       match iter_next tm f it with
       | NOutOfFuel => LFuel
       | NStop err it' => LDone [] (it_b it') err failed
-      | NItem None it' => fc_loop tm r k typ f it' script failed
+      | NItem None it' => fc_loop N tm r k typ f it' script failed
       | NItem (Some nm) it' =>
           match lookup_child r k typ nm with
-          | None => fc_loop tm r k typ f it' script failed          (* nopHandler *)
+          | None => fc_loop N tm r k typ f it' script failed          (* nopHandler *)
           | Some 0 => LPanic []
           | Some h =>
               let '(b, script') := next_beh script in
               (* br := &bufReader{r: t, buf: r.buf}; ...; r.buf = br.buf *)
-              let '(got, br) := take_n (b_token tm) (hb_reads b) (mkbr (b_buf (it_b it')) 0 (b_und (it_b it'))) in
+              let '(got, br, ne) := run_reads N (b_token tm) b (mkbr (b_buf (it_b it')) 0 (b_und (it_b it'))) in
               let it'' := mkiter (it_cnt it') (it_cur it') (mkbr (b_buf br) (b_off (it_b it')) (b_und br)) in
-              l_cons (child_event k h typ got) (fc_loop tm r k typ f it'' script' (failed || hb_fail b))
+              l_cons (child_event k h typ got)
+                     (fold_right l_cons (fc_loop N tm r k typ f it'' script' (failed || hb_fail b)) ne)
           end
       end
   end.
 
 (* scripts consumed by the loop: one entry per invoked handler *)
-Definition for_children (r : registry) (k : skind) (sn : name) (typ : bytes) (toks : list tok) (tm : term)
+Definition for_children (N : nestf) (r : registry) (k : skind) (sn : name) (typ : bytes) (toks : list tok) (tm : term)
   (script : list hbeh) : outcome :=
   let it0 := mkiter (Some 0) CNone (mkbr [TStart sn] 1 toks) in
-  match fc_loop tm r k typ (length toks + 3) it0 script false with
+  match fc_loop N tm r k typ (length toks + 3) it0 script false with
   | LFuel => out_fuel
   | LPanic evs => mkout evs [] RetPanic
   | LDone evs b iter_err failed =>
@@ -533,25 +576,25 @@ Definition for_children (r : registry) (k : skind) (sn : name) (typ : bytes) (to
         | None => mkout evs [] RetOk
         | Some 0 => mkout evs [] RetPanic
         | Some h =>
-            let '(bh, _) := next_beh (skipn (length evs) script) in
-            let '(got, _) := take_n (b_token tm) (hb_reads bh) (mkbr (b_buf b) 0 (b_und b)) in
-            mkout (evs ++ [child_event k h typ got]) [] (ret_of bh)
+            let '(bh, _) := next_beh (skipn (own_count evs) script) in
+            let '(got, _, ne) := run_reads N (b_token tm) bh (mkbr (b_buf b) 0 (b_und b)) in
+            mkout (evs ++ child_event k h typ got :: ne) [] (ret_of bh)
         end
       else mkout evs [] RetOk
   end.
 
-Definition msg_router (r : registry) (sn : name) (attrs : list attr) (toks : list tok) (tm : term)
+Definition msg_router (N : nestf) (r : registry) (sn : name) (attrs : list attr) (toks : list tok) (tm : term)
   (script : list hbeh) : outcome :=
   match new_message sn attrs with
   | None => out_err
-  | Some h => for_children r SMsg sn (h_type h) toks tm script
+  | Some h => for_children N r SMsg sn (h_type h) toks tm script
   end.
 
-Definition pres_router (r : registry) (sn : name) (attrs : list attr) (toks : list tok) (tm : term)
+Definition pres_router (N : nestf) (r : registry) (sn : name) (attrs : list attr) (toks : list tok) (tm : term)
   (script : list hbeh) : outcome :=
   match new_presence sn attrs with
   | None => out_err
-  | Some h => for_children r SPres sn (h_type h) toks tm script
+  | Some h => for_children N r SPres sn (h_type h) toks tm script
   end.
 
 (* ---- ServeMux.HandleXMPP ---- *)
@@ -565,22 +608,54 @@ Fixpoint router_of (local : bytes) (m : list (bytes * bytes)) : option bytes :=
   | (l, rt) :: m' => if bytes_eqb local l then Some rt else router_of local m'
   end.
 
-Definition handle (r : registry) (ns : bytes) (sn : name) (attrs : list attr) (toks : list tok) (tm : term)
+Definition handle_gen (N : nestf) (r : registry) (ns : bytes) (sn : name) (attrs : list attr) (toks : list tok) (tm : term)
   (script : list hbeh) : outcome :=
   match lookup_top r sn with
-  | Some h => run_top h sn toks tm script
+  | Some h => run_top N h sn toks tm script
   | None =>
       if stanza_is sn ns then
         match router_of (snd sn) router_map with
         | Some rt =>
-            if bytes_eqb rt (str "iqRouter") then iq_router r sn attrs toks tm script
-            else if bytes_eqb rt (str "msgRouter") then msg_router r sn attrs toks tm script
-            else if bytes_eqb rt (str "presenceRouter") then pres_router r sn attrs toks tm script
+            if bytes_eqb rt (str "iqRouter") then iq_router N r sn attrs toks tm script
+            else if bytes_eqb rt (str "msgRouter") then msg_router N r sn attrs toks tm script
+            else if bytes_eqb rt (str "presenceRouter") then pres_router N r sn attrs toks tm script
             else out_nothing
         | None => out_nothing
         end
       else out_nothing
   end.
+
+(* one stanza handled by a mux that is not in the middle of any other *)
+Definition handle : registry -> bytes -> name -> list attr -> list tok -> term -> list hbeh -> outcome :=
+  handle_gen no_nest.
+
+(* ---- several stanzas in flight on one mux ---- *)
+
+(* an element with the reader that delivers it and the script of the handlers
+   invoked for it *)
+Record elem := mkelem { e_name : name; e_attrs : list attr; e_toks : list tok; e_tm : term; e_script : list hbeh }.
+
+(* the dispatch of e when handlers may hand the stanzas elems[lo..] to the same
+   mux: stanza j's handlers may in turn dispatch elems[j+1..] only, so nesting is
+   bounded by the length of the list (fuel; RetOutOfFuel otherwise).  The mux - the
+   registry r and the name space ns - is all the dispatches share: every call has
+   its own replay buffer, iterator and reader. *)
+Fixpoint handle_from (fuel : nat) (r : registry) (ns : bytes) (elems : list elem) (lo : nat) (e : elem) : outcome :=
+  match fuel with
+  | 0 => out_fuel
+  | S f =>
+      handle_gen
+        (fun j => if lo <=? j then
+                    match nth_error elems j with
+                    | Some e' => Some (handle_from f r ns elems (S j) e')
+                    | None => None
+                    end
+                  else None)
+        r ns (e_name e) (e_attrs e) (e_toks e) (e_tm e) (e_script e)
+  end.
+
+Definition handle_in (r : registry) (ns : bytes) (elems : list elem) (e : elem) : outcome :=
+  handle_from (S (length elems)) r ns elems 0 e.
 
 (* ---- correspondence records (harness-written case files) ---- *)
 
@@ -619,16 +694,6 @@ Fixpoint list_eqb {A} (eqb : A -> A -> bool) (a b : list A) : bool :=
   | _, _ => false
   end.
 
-Definition event_eqb (a b : event) : bool :=
-  match a, b with
-  | EvTop h n g, EvTop h' n' g' => Nat.eqb h h' && name_eqb n n' && list_eqb tok_eqb g g'
-  | EvIq h t p g, EvIq h' t' p' g' =>
-      Nat.eqb h h' && bytes_eqb t t' && opt_eqb name_eqb p p' && list_eqb tok_eqb g g'
-  | EvMsg h t g, EvMsg h' t' g' => Nat.eqb h h' && bytes_eqb t t' && list_eqb tok_eqb g g'
-  | EvPres h t g, EvPres h' t' g' => Nat.eqb h h' && bytes_eqb t t' && list_eqb tok_eqb g g'
-  | _, _ => false
-  end.
-
 Definition reply_eqb (a b : reply) : bool :=
   bytes_eqb (rp_space a) (rp_space b) && bytes_eqb (rp_type a) (rp_type b) &&
   opt_eqb bytes_eqb (rp_to a) (rp_to b) && opt_eqb bytes_eqb (rp_from a) (rp_from b) &&
@@ -638,6 +703,25 @@ Definition reply_eqb (a b : reply) : bool :=
 Definition ret_eqb (a b : ret) : bool :=
   match a, b with
   | RetOk, RetOk | RetErr, RetErr | RetEOF, RetEOF | RetPanic, RetPanic | RetOutOfFuel, RetOutOfFuel => true
+  | _, _ => false
+  end.
+
+Fixpoint event_eqb (a b : event) : bool :=
+  match a, b with
+  | EvTop h n g, EvTop h' n' g' => Nat.eqb h h' && name_eqb n n' && list_eqb tok_eqb g g'
+  | EvIq h t p g, EvIq h' t' p' g' =>
+      Nat.eqb h h' && bytes_eqb t t' && opt_eqb name_eqb p p' && list_eqb tok_eqb g g'
+  | EvMsg h t g, EvMsg h' t' g' => Nat.eqb h h' && bytes_eqb t t' && list_eqb tok_eqb g g'
+  | EvPres h t g, EvPres h' t' g' => Nat.eqb h h' && bytes_eqb t t' && list_eqb tok_eqb g g'
+  | EvNested j evs reps r, EvNested j' evs' reps' r' =>
+      Nat.eqb j j' &&
+      (fix go (x y : list event) : bool :=
+         match x, y with
+         | [], [] => true
+         | e :: x', e' :: y' => event_eqb e e' && go x' y'
+         | _, _ => false
+         end) evs evs' &&
+      list_eqb reply_eqb reps reps' && ret_eqb r r'
   | _, _ => false
   end.
 
@@ -658,6 +742,17 @@ Definition dcase_ok (c : dcase) : bool :=
   | Some r =>
       d_regok c &&
       outcome_eqb (handle r (d_ns c) (d_name c) (d_attrs c) (d_toks c) (d_tm c) (d_script c)) (d_obs c)
+  end.
+
+(* re-entrant case: options, mux namespace, the stanza, the further stanzas its
+   handlers (and theirs) dispatch on the same mux; observed outcome with the
+   nested dispatches in place *)
+Record ncase := mkncase { n_ops : list regop; n_ns : bytes; n_top : elem; n_nested : list elem; n_obs : outcome }.
+
+Definition ncase_ok (c : ncase) : bool :=
+  match new_mux (n_ops c) with
+  | None => false
+  | Some r => outcome_eqb (handle_in r (n_ns c) (n_nested c) (n_top c)) (n_obs c)
   end.
 
 (* lookup case: options, table, type, queries with the observed handler
